@@ -14,6 +14,7 @@ from btclib.psbt.psbt import Psbt
 from btclib.psbt.psbt_in import PsbtIn
 from btclib.psbt.psbt_view import PsbtView
 from btclib.script import sig_hash
+from btclib.script.engine import script as engine_script
 from btclib.script.script_pub_key import ScriptPubKey
 from btclib.script.witness import Witness
 from btclib.tx import OutPoint, Tx, TxIn, TxOut
@@ -45,8 +46,9 @@ TRUSTED = [
     "the reference routines of the dispatch oracles (ref_dispatch, ref_annex_and_ext, ref_ops, ref_bip341) are the "
     "harness's own transcriptions of BIP16/141/143/341/342 over hashlib; the signed script path spend is verified "
     "with btclib's ssa (property C03's)",
-    "FindAndDelete belongs to the script engine (script/engine/script.py: C08 models and streams it); sig_hash.legacy "
-    "elides OP_CODESEPARATORs only, which is what T4 is about",
+    "find_and_delete / calculate_script_code (script/engine/script.py) are modelled and proved equal to Core's "
+    "FindAndDelete (T4c); the script engine that calls them with the executed codeseparator offset and the "
+    "signatures under check is C08's",
 ]
 ASSUMPTIONS = ["collision resistance of SHA-256 is not assumed by any theorem: the commitment theorems construct the "
                "colliding pair explicitly"]
@@ -258,6 +260,11 @@ def impl(line: str) -> str:  # noqa: PLR0911, PLR0912
         return _digest(f)
     if op in ("spec.legacy", "spec.bip143", "spec.bip341"):
         return _real_preimage(t)
+    if op == "fad":
+        return _digest(engine_script.find_and_delete, unhx(t[1]), unhx(t[2]), render=lambda r: f"{hx(r[0])} {r[1]}")
+    if op == "calc":
+        sigs = [] if t[3] == "." else [unhx(x) for x in t[3].split("/")]
+        return _digest(engine_script.calculate_script_code, unhx(t[1]), int(t[2]), sigs, t[4] == "1", t[5] == "1")
     if op == "strip":
         return _digest(sig_hash._without_op_codeseparators, unhx(t[1]))
     if op == "codefrom":
@@ -854,6 +861,62 @@ def _o_psbt_index(w):
     return ok, f"{w['fn']} index {i} of {len(t['vin'])} inputs: psbt / view -> {got}; index '0' / 0.0 -> {typed}"
 
 
+def ref_find_and_delete(script: bytes, b: bytes):
+    """Core's FindAndDelete, transcribed from interpreter.cpp on the REST of the script (no offsets): skip the
+    copies of b standing here, keep one whole operation, go on; (result, nFound)."""
+    if not b:
+        return script, 0
+    out, found, rest = b"", 0, script
+    while True:
+        while len(rest) >= len(b) and rest[:len(b)] == b:
+            rest = rest[len(b):]
+            found += 1
+        n = _one_op_len(rest)
+        if n == 0:
+            break
+        out += rest[:n]
+        rest = rest[n:]
+    return (out + rest, found) if found else (script, 0)
+
+
+def _one_op_len(s: bytes) -> int:
+    """Length of the operation GetOp reads at the head of s; 0 where it reads none."""
+    if not s:
+        return 0
+    op = s[0]
+    if not 1 <= op <= 78:
+        return 1
+    if op <= 75:
+        n = 1 + op
+    else:
+        w = {76: 1, 77: 2, 78: 4}[op]
+        if len(s) < 1 + w:
+            return 0
+        n = 1 + w + int.from_bytes(s[1:1 + w], "little")
+    return n if n <= len(s) else 0
+
+
+def _o_find_and_delete(w):
+    """find_and_delete / calculate_script_code + legacy on the real code against Core's definition: the digest of a
+    pre-segwit signature check is legacy over the script (from the offset) with each signature's push removed."""
+    s, sigs, off = unhx(w["s"]), [unhx(x) for x in w["sigs"]], w["off"]
+    want = s[off:]
+    any_found = False
+    for sig in sigs:
+        needle = (bytes([len(sig)]) if len(sig) < 76 else b"\x4c" + bytes([len(sig)])) + sig
+        got1 = _call(engine_script.find_and_delete, want, needle)
+        ref1 = ref_find_and_delete(want, needle)
+        if got1 != ("ok", ref1):
+            return False, f"find_and_delete({want.hex()}, {needle.hex()}) -> {got1}, Core's definition {ref1}"
+        any_found = any_found or ref1[1] > 0
+        want = ref1[0]
+    lax = _call(engine_script.calculate_script_code, s, off, sigs, False, False)
+    strict = _call(engine_script.calculate_script_code, s, off, sigs, True, False)
+    seg = _call(engine_script.calculate_script_code, s, off, sigs, True, True)
+    ok = lax == ("ok", want) and strict == (("err", "value") if any_found else ("ok", want)) and seg == ("ok", s[off:])
+    return ok, f"calculate_script_code({w['s']}, {off}, {w['sigs']}): lax {lax} strict {strict} segwit {seg}; Core: {want.hex()} found={any_found}"
+
+
 ORACLES = {
     "bip.vectors": _o_bip_vector,
     "precomputed=direct": _o_precomputed,
@@ -870,6 +933,7 @@ ORACLES = {
     "redeem_script.bip16": _o_redeem,
     "bip341.reference": _o_bip341_reference,
     "psbt.index.refused": _o_psbt_index,
+    "find_and_delete.core": _o_find_and_delete,
 }
 
 
@@ -1481,12 +1545,49 @@ def s_view_history(ctx):
                                        "k": rng.randrange(n), "steps": rng.choice(orders)})
 
 
+def s_find_and_delete(ctx):
+    """FindAndDelete and the pre-segwit script code: scripts built around copies of the needle at operation
+    boundaries, inside pushes, adjacent, overlapping what a deletion joins, truncated tails."""
+    rng = ctx.rng
+    fad, calc = [], []
+    fixed = [(b"", b""), (b"\x00", b"\x00"), (b"\x02\x00\x00", b"\x00"), (b"\x01\x01\x01\x01", b"\x01\x01"),
+             (b"\x03\x02\xff\x03\x02\xff\x03", b"\x02\xff\x03"), (b"\x02\xfe\xed\x51", b"\xfe\xed\x51"),
+             (b"\x00\x02\xfe\xed\x51\x00", b"\x00"), (b"\x4c\x01\x01\x01\x01", b"\x01\x01"), (b"\x51", b"")]
+    for sc, t in fixed:
+        fad.append(f"fad {hx(sc)} {hx(t)}")
+    for _ in range(ctx.n(500)):
+        sigs = [common.rand_bytes(rng, rng.choice([0, 1, 1, 2, 3, 9, 71, 76])) for _ in range(rng.choice([1, 1, 1, 2, 3]))]
+        needles = [push(x) if x else b"\x00" for x in sigs]
+        needle = rng.choice(needles) if rng.random() < 0.85 else common.rand_bytes(rng, rng.randrange(0, 4))
+        parts = []
+        for _ in range(rng.randrange(1, 9)):
+            r = rng.random()
+            if r < 0.35:
+                parts.append(rng.choice(needles))
+            elif r < 0.5:
+                parts.append(push(rng.choice(needles) + common.rand_bytes(rng, rng.randrange(3))))
+            elif r < 0.6:
+                parts.append(bytes([SEP]))
+            else:
+                parts.append(g_chunk(rng))
+        sc = b"".join(parts)
+        if rng.random() < 0.2 and sc:
+            sc = sc[: rng.randrange(len(sc))]
+        fad.append(f"fad {hx(sc)} {hx(needle)}")
+        off = 0 if rng.random() < 0.6 else rng.randrange(len(sc) + 2)
+        calc.append(f"calc {hx(sc)} {off} {'/'.join(hx(x) for x in sigs)} {rng.choice('01')} {rng.choice('0001')}")
+        ctx.check("find_and_delete.core", {"s": hx(sc), "sigs": [hx(x) for x in sigs], "off": off})
+    ctx.stream("find_and_delete", fad, nontrivial=lambda ln, out: not out.endswith(" 0"))
+    ctx.stream("calculate_script_code", calc)
+
+
 def run(ctx):
     shared.validate_hashes(ctx, EXE)
     s_core_vectors(ctx)
     s_bip_vectors(ctx)
     s_spec_preimages(ctx)
     s_scripts(ctx)
+    s_find_and_delete(ctx)
     s_legacy(ctx)
     s_segwit(ctx)
     s_taproot(ctx)
